@@ -207,7 +207,7 @@ def check(index, ctx):
                                      f"the projected weights are reduced by `{w_['text']}` ({w_['fn']} over {w_.get('over')}) instead of a single sum over dim 0", w_["loc"])
                     else:
                         # the sum written as a loop: `acc += project(u_i e_i)` for every row index i, acc starting at zero
-                        acc = [e for e in ev if e["kind"] == "inplace" and _agg.in_weighting(e, W_UP) and e.get("op") == "Add" and "solve_qp" in (e.get("rhs_origin") or [])]
+                        acc = [e for e in ev if e["kind"] in ("inplace", "accumulate") and _agg.in_weighting(e, W_UP) and e.get("op") == "Add" and "solve_qp" in (e.get("rhs_origin") or [])]
                         sites = {e["loc"] for e in acc}
                         scat = [e for e in ev if e["kind"] == "sop" and e["sop"] == "index_put" and _agg.in_weighting(e, W_UP) and e.get("in_idx_of") == "R" and e.get("in_origin") == ["loop-index"]
                                 and e.get("base_poly") == Poly.const(0) and not e.get("aug")]
